@@ -43,7 +43,10 @@ func (w *Waiter) Wait(ctx context.Context) (ok bool) {
 	// For once schedule, for example, we need to get it only once.
 	waitFor := next.Sub(w.lastNow)
 	if waitFor <= 0 {
-		w.overdueDuration = 0 - waitFor
+		// Token is already due. Cached time can be stale, after long shoot for example,
+		// so refresh it to not underestimate overdue.
+		w.lastNow = time.Now()
+		w.overdueDuration = w.lastNow.Sub(next)
 		return true
 	}
 	w.lastNow = time.Now()
